@@ -842,6 +842,23 @@ def name_return(sig, ret_name):
     return '%s (%s: %s)%s' % (pre, ret_name, ty, ('\n' + post) if post.strip() else '')
 
 
+def strip_comments(text):
+    """the text without its line / block comments (a line comment keeps its line break)"""
+    out = []
+    for t in lex(text):
+        if t.kind in ('lcomment', 'comment'):
+            if t.text.startswith('//'):
+                continue
+            if t.text.startswith('/*'):
+                out.append(' ')
+                continue
+        if t.kind == 'bcomment':
+            out.append(' ')
+            continue
+        out.append(t.text)
+    return ''.join(out)
+
+
 def sig_params(sig):
     """(fn name, [parameter names]) of a signature: used to check a re-typed signature (R17) against the real one"""
     toks = [t for t in lex(sig) if t.kind not in ('ws', 'comment')]
